@@ -448,6 +448,15 @@ func genSite(r *core.Rand) *script {
 	if r.Chance(1, 3) {
 		sc.e = 0
 	}
+	switch r.Intn(12) {
+	case 0:
+		sc.hc = "v"
+	case 1:
+		sc.hc = "s"
+	case 2:
+		// the redirect server automatic HTTPS creates: no probe handlers there, credentials must stay off
+		sc.hc, sc.creds, sc.e, sc.rw, sc.route = r.Pick([]string{"r", "q"}), false, 0, 0, "ok"
+	}
 	switch sc.route {
 	case "ok", "px", "rl", "hr", "rt", "ic":
 		sc.status = []int{200, 204, 302, 404, 500, 503}[r.Intn(6)]
